@@ -105,7 +105,7 @@ def gen_prog(rng):
 def gen_intents(rng, nwl):
     its = []
     for w in range(nwl):
-        if rng.random() < 0.7:
+        if rng.random() < 0.85:
             for _ in range(rng.choice([1, 1, 2])):
                 its.append(f"{w}.{gen_prog(rng)}")
     return ",".join(its) or "-"
@@ -179,9 +179,9 @@ def gen_reqs(rng, nlines, maxlen, tier, qids):
             coord = f"w{w}.{sub}"
         else:
             coord = "x"
-        shape = rng.choice(["h", "h", "s", "s", "t", "q", f"b{rng.randint(0, 9)}.{rng.choice([0, 10, 300])}", "a"])
-        mb = rng.choice(["-", "0", "1", "127", "128", "150", "196", "200", "256", "4096"])
-        mt = rng.choice(["-", "0", "1", "2", "8"])
+        shape = rng.choice(["h", "h", "h", "s", "s", "s", "t", "q", f"b{rng.randint(0, 9)}.{rng.choice([0, 10, 300])}", "a"])
+        mb = rng.choice(["-", "0", "1", "127", "128", "150", "196", "200", "256", "256", "1000", "4096", "4096", str(U64)])
+        mt = rng.choice(["-", "0", "1", "1", "2", "8"])
         ma = rng.choice(["-", "0", "1"])
         reqs.append(f"p:{focus}:{coord}:{shape}:{mb}:{mt}:{ma}:{rng.choice('be')}")
     return reqs
